@@ -15,6 +15,17 @@ COMPONENTS = []
 
 KEYS3 = ['a', 'b', 'c']
 MISSING = 'zz'
+# the model's values are integers; this one stands for Python's None on the implementation side (a present key
+# whose value is None - and, with 0, a present key whose value is falsy)
+NONE_CODE = 990001
+
+
+def dv(v):
+    return None if v == NONE_CODE else v
+
+
+def ev(v):
+    return NONE_CODE if v is None else v
 
 
 def enc_op(op):
@@ -55,6 +66,8 @@ def alphabet(keys):
         ops.append(('append', k, v, True))
         ops.append(('append', k, v, False))
         ops.append(('setdefault', k, v))
+        ops.append(('set', k, NONE_CODE))
+        ops.append(('set', k, 0))
     ops.append(('set', keys[0], -1))                                  # refused by validate_fn
     ops.append(('add', keys[1], -1, True, None, keys[0], True))
     ops.append(('del', MISSING))
@@ -79,33 +92,37 @@ def alphabet(keys):
 
 
 def base_states(keys):
-    """op prefixes reaching every ordered subset of keys"""
+    """op prefixes reaching every ordered subset of keys, and states in which a present key holds None or 0"""
     out = []
     for n in range(len(keys) + 1):
         for perm in itertools.permutations(keys, n):
             out.append([('set', k, i + 1) for i, k in enumerate(perm)])
+    for special in (NONE_CODE, 0):
+        for n in (1, 2, 3):
+            for j in range(n):
+                out.append([('set', k, special if i == j else i + 1) for i, k in enumerate(keys[:n])])
     return out
 
 
 def impl_apply(d, op):
     n = op[0]
     if n == 'set':
-        d[op[1]] = op[2]
+        d[op[1]] = dv(op[2])
         return 'none'
     if n == 'add':
         _, k, v, after, index, pos_key, replace = op
-        d.add_item(k, v, after=after, index=index, pos_key=pos_key, replace=replace)
+        d.add_item(k, dv(v), after=after, index=index, pos_key=pos_key, replace=replace)
         return 'none'
     if n == 'del':
         del d[op[1]]
         return 'none'
     if n == 'pop':
-        return ['val', d.pop(op[1])]
+        return ['val', ev(d.pop(op[1]))]
     if n == 'popat':
-        return ['val', d.pop_at(op[1])]
+        return ['val', ev(d.pop_at(op[1]))]
     if n == 'popitem':
         k, v = d.popitem()
-        return ['item', k, v]
+        return ['item', k, ev(v)]
     if n == 'sort':
         d.sort(reverse=op[1])
         return 'none'
@@ -116,21 +133,21 @@ def impl_apply(d, op):
         d.clear()
         return 'none'
     if n == 'append':
-        d.append(op[1], op[2], replace=op[3])
+        d.append(op[1], dv(op[2]), replace=op[3])
         return 'none'
     if n == 'extend':
-        d.extend(list(op[1]), replace=op[2])
+        d.extend([(k, dv(v)) for k, v in op[1]], replace=op[2])
         return 'none'
     if n == 'update':
-        d.update(list(op[1]))
+        d.update([(k, dv(v)) for k, v in op[1]])
         return 'none'
     if n == 'setdefault':
-        return ['val', d.setdefault(op[1], op[2])]
+        return ['val', ev(d.setdefault(op[1], dv(op[2])))]
     raise AssertionError(op)
 
 
 def _vfn(v):
-    if v < 0:
+    if v is not None and v < 0:
         raise ValueError('negative')
 
 
@@ -144,7 +161,7 @@ def impl_trace(ops):
         except Exception as e:  # noqa
             r = ['raise', type(e).__name__]
         keys = list(d)
-        items = [[k, d._values.get(k, '<missing>')] for k in keys]
+        items = [[k, ev(d._values.get(k, '<missing>'))] for k in keys]
         out.append((r, items, keys, len(d), sorted(d._values.keys())))
     return out
 
@@ -206,7 +223,7 @@ def random_case(rng, keys, alpha, n):
     ops = []
     for i in range(n):
         op = rng.choice(alpha)
-        if op[0] in ('set', 'add', 'append', 'setdefault') and op[2] >= 0:
+        if op[0] in ('set', 'add', 'append', 'setdefault') and op[2] > 0 and op[2] != NONE_CODE:
             op = (op[0], op[1], 10 + i) + tuple(op[3:])
         ops.append(op)
     return ops
